@@ -57,7 +57,23 @@ def gen_request(r, pre, owners, maxsz, limit):
         d = pre.get(n, b"")
         tw[n] = (M.gen_testv(r, d, p_true), M.gen_datav(r, len(d), limit), M.gen_newlen(r, len(d)))
     kind = "plain"
-    if r.random() < 0.10 and names:        # an oversized vector, not necessarily in the first share / first position
+    if pre and r.random() < 0.14:
+        # delete EVERY existing share (the bucket directory goes away with the last one) and create
+        # a share that does not exist yet, in one request: deletes first or create first, new share
+        # number below or above the old ones; sometimes one old share is kept
+        free = [n for n in range(NSHARES) if n not in pre]
+        if free:
+            new = r.choice([min(free), max(free), r.choice(free)])
+            keep = r.choice(sorted(pre)) if (len(pre) > 1 and r.random() < 0.2) else None
+            dels = [(n, ([], M.gen_datav(r, len(pre[n]), limit) if r.random() < 0.3 else [], 0)) for n in sorted(pre) if n != keep]
+            r.shuffle(dels)
+            create = (new, (M.gen_testv(r, b"", 0.97), M.gen_datav(r, 0, limit) or [(0, M.rb(r, 3))], r.choice([None, None, 50])))
+            items = dels + [create] if r.random() < 0.6 else [create] + dels
+            if r.random() < 0.3 and len(free) > 1:      # a second new share somewhere
+                items.insert(r.randint(0, len(items)), (r.choice([n for n in free if n != new]), ([], [(r.randint(0, 9), M.rb(r, 2))], None)))
+            tw = dict(items)
+            kind = "delete-all-and-create"
+    if r.random() < 0.10 and names and kind == "plain":        # an oversized vector, not necessarily in the first share / first position
         n = r.choice(names)
         tv, dv, nl = tw[n]
         if maxsz > 10 ** 6:     # the real MAX_SIZE: strictly beyond it (a vector that fits would really be written)
@@ -69,7 +85,7 @@ def gen_request(r, pre, owners, maxsz, limit):
         tw[n] = (tv, dv, nl)
         kind = "oversized"
     we = WES[0]
-    if r.random() < 0.10:
+    if r.random() < 0.10 and kind != "delete-all-and-create":
         we = WES[1]
         kind = "wrong-enabler"
     secrets = (we, M.secret(r.randint(0, 3)), M.secret(10 + r.randint(0, 3)))
@@ -93,6 +109,17 @@ def judge(ctx, i, step, pre, pre_files, owners, op, res, post, post_files, maxsz
                             expected={n: pre.get(n, b"").hex() for n in diff} if False else "no file changes",
                             observed={str(n): (post.get(n).hex() if post.get(n) is not None else None) for n in diff})
 
+    if res == ("err", "EOSError"):
+        changed = sorted(n for n in set(pre_files) | set(post_files) if pre_files.get(n) != post_files.get(n))
+        applied = all(post.get(n) == M.ref_apply(pre.get(n), dv, nl) for n, (tv, dv, nl) in tw.items())
+        if changed and not (enabler_ok and tests_ok and fits and applied):
+            ctx.oracle_fail("rtw-partial-application-on-os-error",
+                            "the request raised an OSError (not a protocol answer) after part of it had been applied: shares %r changed, "
+                            "data went from %r to %r" % (changed, {n: pre[n][:16] for n in pre}, {n: post[n][:16] for n in post}),
+                            case=case, expected="all of the request's writes, or none", observed={str(n): (post[n].hex() if n in post else None) for n in changed})
+        else:
+            ctx.oracle_fail("rtw-os-error", "the request raised an OSError instead of answering", case=case, expected="(bool, reads) or a protocol error", observed="OSError")
+        return "os-error"
     if not enabler_ok:
         if res != ("err", "EBadWriteEnabler"):
             ctx.oracle_fail("rtw-bad-enabler-not-rejected", "a share was created under another write enabler but the request returned %r" % (res,),
@@ -170,6 +197,9 @@ def one_history(ctx, ss, clock, i, maxsz_patch):
             post = data_of(ss, si)
             post_files = M.read_bucket(ss, si)
             outcome = judge(ctx, i, step, pre, pre_files, owners, op, res, post, post_files, maxsz)
+            if outcome == "os-error":
+                ctx.case(None, kind=kind + ":" + outcome)
+                return None
             for n in list(owners):
                 if n not in post_files:
                     del owners[n]
@@ -195,9 +225,10 @@ def run(ctx):
     n = ctx.n(90, 900)
     for i in range(n):
         patch = None if i % 3 else 600 + (i % 7) * 50      # a third of the histories with a scaled-down MAX_SIZE
-        t, inf = one_history(ctx, ss, clock, i, patch)
-        terms.append(t)
-        info.append(inf)
+        out = one_history(ctx, ss, clock, i, patch)
+        if out is not None:
+            terms.append(out[0])
+            info.append(out[1])
     bad = ctx.coq_check(M.IMPORTS, terms, preamble=M.PREAMBLE, tag="c24", shard=12)
     for ix in bad:
         i, files0, now0, ops, results, files1, patch = info[ix]
@@ -220,7 +251,10 @@ def replay(ctx, rec):
     sub = type(ctx)(ctx.pid, rec.get("tier", "quick"), rec.get("seed", 0))
     for j in range(i):
         one_history(sub, ss, clock, j, None if j % 3 else 600 + (j % 7) * 50)
-    term, inf = one_history(ctx, ss, clock, i, None if i % 3 else 600 + (i % 7) * 50)
+    out = one_history(ctx, ss, clock, i, None if i % 3 else 600 + (i % 7) * 50)
+    if out is None:
+        return {"history": i, "note": "the history ends with an OSError raised by the server (see FAILS AGAIN)"}
+    term, inf = out
     bad = ctx.coq_check(M.IMPORTS, [term], preamble=M.PREAMBLE, tag="c24r")
     out = {"history": i, "ops": [repr(o)[:600] for o in inf[3]], "results": [repr(x)[:300] for x in inf[4]],
            "model_agrees": not bad}
